@@ -522,6 +522,8 @@ where
         }
 
         let mut escape: Option<Escape> = None;
+        // Whether a quote was opened: `''` is an (empty) argument, bare separators are not.
+        let mut quoted = false;
         let mut i = 0;
         loop {
             if i == pending.len() {
@@ -542,7 +544,9 @@ where
                             format!("Unterminated quote: {q}"),
                         ));
                     }
-                    if i == 0 {
+                    if result.is_empty() && !quoted {
+                        // Nothing but separators (or a lone backslash) since the last
+                        // argument: the input is exhausted, there is no further argument.
                         return Ok(None);
                     }
                     pending.clear();
@@ -560,7 +564,10 @@ where
                     result.push(c);
                     escape = None;
                 }
-                (None, c @ (b'"' | b'\'')) => escape = Some(Escape::Quote(c)),
+                (None, c @ (b'"' | b'\'')) => {
+                    escape = Some(Escape::Quote(c));
+                    quoted = true;
+                }
                 (None, b'\\') => escape = Some(Escape::Slash),
                 (None, c) if c.is_ascii_whitespace() => {
                     if !result.is_empty() {
